@@ -15,11 +15,12 @@ CONSTANTS Kinds,      \* {"free", "beyond", "gap"}
           Dev
 
 VARIABLES kind, carrier, mode, optional,
-          pc,       \* "resolve" | "carry" | "option" | "field" | "done"
+          nested,   \* TRUE: the object with the dangling entry is itself the value of an OPTIONAL entry of an outer typed object
+          pc,       \* "resolve" | "carry" | "option" | "field" | "outer" | "done"
           err,      \* current error value: [root, wraps] or NoErr
           outcome   \* "absent" | "err_named" | "err_unnamed" | "value"
 
-vars == <<kind, carrier, mode, optional, pc, err, outcome>>
+vars == <<kind, carrier, mode, optional, nested, pc, err, outcome>>
 NoErr == [root |-> "none", wraps |-> <<>>]
 
 \* file.rs resolve_ref / xref.rs get: the root cause and the wrappers it is born with
@@ -29,7 +30,7 @@ Resolve ==
               [] kind = "gap"    -> [root |-> "NullRef", wraps |-> <<>>]
               [] kind = "beyond" -> [root |-> "UnspecifiedXRefEntry", wraps |-> <<"Try">>]
   /\ pc' = "carry"
-  /\ UNCHANGED <<kind, carrier, mode, optional, outcome>>
+  /\ UNCHANGED <<kind, carrier, mode, optional, nested, outcome>>
 
 \* the field's type decides how the reference is followed
 Carry ==
@@ -39,36 +40,53 @@ Carry ==
           /\ err' = NoErr /\ pc' = "field"
      ELSE /\ err' = IF carrier \in {"mayberef", "rcref"} THEN [err EXCEPT !.wraps = Append(@, "Shared")] ELSE err
           /\ pc' = IF optional THEN "option" ELSE "field"
-  /\ UNCHANGED <<kind, carrier, mode, optional, outcome>>
+  /\ UNCHANGED <<kind, carrier, mode, optional, nested, outcome>>
 
+\* the wrappers a "this object is missing" error may carry.  FromPrimitive is NOT one of them: it says that an entry
+\* INSIDE the object could not be read, i.e. the object itself exists
+Transparent == IF "field_error_counts_as_missing" \in Dev THEN {"Try", "Shared", "FromPrimitive"} ELSE {"Try", "Shared"}
 IsMissing(e) ==
   IF "option_matches_only_unwrapped" \in Dev
   THEN e.wraps = <<>> /\ e.root \in {"NullRef", "FreeObject"}
-  ELSE e.root \in {"NullRef", "FreeObject", "UnspecifiedXRefEntry"} /\ \A i \in 1..Len(e.wraps) : e.wraps[i] \in {"Try", "Shared"}
+  ELSE e.root \in {"NullRef", "FreeObject", "UnspecifiedXRefEntry"} /\ \A i \in 1..Len(e.wraps) : e.wraps[i] \in Transparent
 
 \* object/mod.rs Option reader
 OptionRead ==
   /\ pc = "option"
   /\ IF IsMissing(err) \/ mode = "tolerant" THEN err' = NoErr ELSE UNCHANGED err
   /\ pc' = "field"
-  /\ UNCHANGED <<kind, carrier, mode, optional, outcome>>
+  /\ UNCHANGED <<kind, carrier, mode, optional, nested, outcome>>
 
 \* derived reader: an error of a field is wrapped with the field's name
 Field ==
   /\ pc = "field"
-  /\ outcome' = IF err = NoErr THEN (IF carrier \in {"lazy", "ref"} THEN "value" ELSE "absent") ELSE "err_named"
+  /\ IF nested /\ err # NoErr
+     THEN \* the error leaves the inner object's reader wrapped with the entry's name and reaches the outer Option reader
+          /\ err' = [err EXCEPT !.wraps = Append(@, "FromPrimitive")]
+          /\ pc' = "outer" /\ UNCHANGED outcome
+     ELSE /\ outcome' = IF err = NoErr THEN (IF carrier \in {"lazy", "ref"} THEN "value" ELSE "absent") ELSE "err_named"
+          /\ pc' = "done" /\ UNCHANGED err
+  /\ UNCHANGED <<kind, carrier, mode, optional, nested>>
+
+\* the outer object's Option reader sees an error of an entry of the inner object: the inner object is not missing
+OuterOption ==
+  /\ pc = "outer"
+  /\ outcome' = IF IsMissing(err) \/ mode = "tolerant" THEN "absent" ELSE "err_named"
   /\ pc' = "done"
-  /\ UNCHANGED <<kind, carrier, mode, optional, err>>
+  /\ UNCHANGED <<kind, carrier, mode, optional, nested, err>>
 
 Init ==
   /\ kind \in Kinds /\ carrier \in Carriers /\ mode \in Modes /\ optional \in BOOLEAN
+  /\ nested \in BOOLEAN /\ (nested => ~optional /\ carrier \notin {"lazy", "ref"})     \* nesting matters for a REQUIRED followed entry of the inner object
   /\ pc = "resolve" /\ err = NoErr /\ outcome = "none"
 
-Next == Resolve \/ Carry \/ OptionRead \/ Field
+Next == Resolve \/ Carry \/ OptionRead \/ Field \/ OuterOption
 Spec == Init /\ [][Next]_vars
 
 -----------------------------------------------------------------------------
 \* C18: optional entry => absent (or an unfollowed reference); required entry => an error naming the entry
-Expected == IF carrier \in {"lazy", "ref"} THEN "value" ELSE IF optional THEN "absent" ELSE "err_named"
+\* (a tolerant outer reader drops an optional entry whose value cannot be read at all: that is what tolerant means)
+Expected == IF carrier \in {"lazy", "ref"} THEN "value" ELSE IF optional THEN "absent"
+            ELSE IF nested /\ mode = "tolerant" THEN "absent" ELSE "err_named"
 DanglingIsNull == pc = "done" => outcome = Expected
 =============================================================================
